@@ -661,6 +661,10 @@ def fam_memo(tier, seed):
                     if name == "three_level":
                         t = "a" * (n_ % 2 + 1) + "x"
                     g.real_extra.append(list(t))
+            if name == "memo_in_closure" and len(sub) in (0, len(memoizable)):
+                # more than 65536 positions / cache entries / bytes in one parse (real parsers only)
+                g.huge_extra.append(list("ay" * 70000))
+                g.huge_extra.append(list("aax" * 30000 + "ay" * 20000 + "b"))
             if well_formed(g):
                 out.append(g)
     return out
@@ -1522,6 +1526,17 @@ def fam_types(tier, seed):
         g = Grammar("x", rules, meta={"shape": "keywords_chunk_%d" % (i // 8)})
         g.alpha = ["k"]
         add(g)
+    # a field named like a rule: fine for structs, aliases and enums; a unit struct of that name is read as a constant
+    # in the templates' binding patterns (known finding)
+    for tname, trule in (("unit", Rule("A", Lit("a"))), ("struct", Rule("A", Seq(Lit("a"), Opt(Call("B", "b"))))),
+                         ("string", Rule("A", Lit("a"), string=True)), ("enum", Rule("A", Choice(Call("B", "@"), Call("C", "@"))))):
+        for shape, body in (("choice", Seq(Choice(Call("A", "A"), Lit("c")), Call("A", "y"))), ("clo", Clo(Seq(Call("A", "A"), Lit(",")))),
+                            ("single", Seq(Lit("("), Call("A", "A"), Lit(")")))):
+            g = Grammar("x", [Rule("S", body, export=True), trule, Rule("B", Lit("b")), Rule("C", Lit("c"), string=True)],
+                        meta={"shape": "field_like_%s_rule_%s" % (tname, shape),
+                              "local_name": "field-named-like-unit-rule" if tname == "unit" else "field-named-like-rule"})
+            g.alpha = ["a"]
+            add(g)
     for nm in TEMPLATE_LOCALS:
         for shape, body in (("seq", lambda n: Seq(Call("A", n), Lit(","), Call("B", "other"))),
                             ("clo", lambda n: Seq(Clo(Seq(Call("A", n), Lit(","))), Opt(Call("B", "other")))),
@@ -1561,7 +1576,7 @@ def fam_layout(tier, seed):
     rnd = random.Random(seed * 7919 + 31)
     out = []
     n = 5 if tier == "quick" else 40
-    for fam in ("ops", "fields", "ws", "lr", "inc", "user", "uni", "pos"):
+    for fam in ("ops", "fields", "ws", "lr", "inc", "user", "uni", "pos", "names"):
         src = FAMILIES[fam](tier, seed)
         for g in sample(rnd, src, n):
             h = copy.deepcopy(g)
@@ -1858,6 +1873,102 @@ def substitute(g, m):
 UNI_MAPS = [{"c": "\u00e9"}, {"b": "\u9053", "c": "\U0001F600"}, {"a": "\u00e9", " ": " "}, {"c": "\u00a0"}, {"b": "\u0130"}]
 
 
+def rename(g, rmap, fmap):
+    """the same grammar under other rule and field names (only for grammars without per-grammar user code)"""
+    import peg
+    rn = lambda n: rmap.get(n, n)  # noqa: E731
+    for e in peg.all_exprs(g):
+        if isinstance(e, Call):
+            e.rule = rn(e.rule)
+            if e.field and e.field != "@":
+                e.field = fmap.get(e.field, e.field)
+        elif isinstance(e, Inc):
+            e.rule = rn(e.rule)
+    for r in g.rules:
+        r.name = rn(r.name)
+        if r.kind == "char":
+            r.parts = [(pt[0], rn(pt[1])) if pt[0] == "ref" else pt for pt in r.parts]
+    g.root = rn(g.root)
+    return g
+
+
+def fam_names(tier, seed):
+    """grammars of the other families under unusual names and orders: long names, names that differ only in case,
+    digits and underscores, lower-case rule names, a field named like its rule, reversed rule order, a second
+    exported rule.  Nothing but the labels in the tree may change."""
+    import copy
+    import peg
+    rnd = random.Random(seed * 7919 + 97)
+    out = []
+    n = 3 if tier == "quick" else 12
+    schemes = ["long", "case_twins", "digits_underscores", "lower_case", "field_like_rule", "reversed", "two_exports"]
+    for fam in ("fields", "lr", "inc", "ws", "pos", "ops"):
+        src = [g for g in FAMILIES[fam](tier, seed) if not g.meta.get("user_rs")
+               and not any(getattr(r, "checks", None) and any(c["path"].startswith("crate::") for c in r.checks) for r in g.rules)]
+        for sch in schemes:
+            for g in sample(rnd, src, n):
+                h = copy.deepcopy(g)
+                names = [r.name for r in h.rules if r.name not in ("Whitespace",)]
+                fields = sorted({e.field for e in peg.all_exprs(h) if isinstance(e, Call) and e.field and e.field != "@"})
+                rmap, fmap = {}, {}
+                if sch == "long":
+                    rmap = {x: x + "_" + "Xy" * 30 for x in names}
+                    fmap = {f: f + "_" + "y" * 40 for f in fields}
+                elif sch == "case_twins":
+                    if len(names) < 2:
+                        continue
+                    a, b = names[0], names[1]
+                    rmap = {a: "Twin", b: "TWIN"}
+                    if len(names) > 2:
+                        rmap[names[2]] = "TwIn"
+                    if len(fields) >= 2:
+                        fmap = {fields[0]: "val", fields[1]: "VAL"}
+                elif sch == "digits_underscores":
+                    rmap = {x: "R2_%s__9" % x for x in names}
+                    fmap = {f: "_%s_1" % f for f in fields}
+                elif sch == "lower_case":
+                    rmap = {x: "r" + x.lower() for x in names}
+                elif sch == "field_like_rule":
+                    if not fields:
+                        continue
+                    tgt = next((e.rule for e in peg.all_exprs(h) if isinstance(e, Call) and e.field == fields[0] and e.rule in names), None)
+                    if tgt is None:
+                        continue
+                    tr_ = h.rule(tgt)
+                    if tr_.kind == "rule" and not tr_.string and not any(isinstance(e, Call) and e.field for e in peg.sub_exprs(tr_.body)):
+                        continue    # a field named like a unit-struct rule does not compile: known finding of C03 (types family)
+                    fmap = {fields[0]: tgt}
+                elif sch == "reversed":
+                    h.rules = list(reversed(h.rules))
+                elif sch == "two_exports":
+                    cands = [r for r in h.rules if r.kind == "rule" and not r.export and not r.string
+                             and fields_of_rule_are_named(r)]
+                    if not cands:
+                        continue
+                    cands[0].export = True
+                    h.rules = [cands[0]] + [r for r in h.rules if r is not cands[0]]
+                if len(set(rmap.values())) != len(rmap) or (set(rmap.values()) & (set(names) - set(rmap))):
+                    continue
+                rename(h, rmap, fmap)
+                h.id = "nm_%04d" % len(out)
+                h.meta = dict(g.meta, shape="%s:%s/%s" % (fam, g.meta.get("shape"), sch))
+                h.meta.pop("twin_of", None)
+                h.meta.pop("twin", None)
+                h.real_extra = []
+                if tier == "quick":
+                    h.maxlen = min(h.maxlen, 3)
+                    h.extra = h.extra[:8]
+                if well_formed(h):
+                    out.append(h)
+    return out
+
+
+def fields_of_rule_are_named(r):
+    import peg
+    fs = [e.field for e in peg.sub_exprs(r.body) if isinstance(e, Call) and e.field]
+    return "@" not in fs and not any(isinstance(e, Inc) for e in peg.sub_exprs(r.body))
+
+
 def fam_rand(tier, seed):
     rnd = random.Random(seed * 7919 + 77)
     n = 80 if tier == "quick" else 500
@@ -1922,5 +2033,6 @@ def fam_randmemo(tier, seed):
 
 
 FAMILIES["rand"] = fam_rand
+FAMILIES["names"] = fam_names
 FAMILIES["randuni"] = fam_randuni
 FAMILIES["randmemo"] = fam_randmemo
